@@ -29,7 +29,8 @@ type ChunkProg struct {
 	Kind    map[string]string `json:"kind"`
 	Readers map[string]string `json:"readers"`
 	Losses  int               `json:"losses"`
-	Pre     string            `json:"pre"` // "" or the name of a writer whose value is stored before the race starts
+	Pre     string            `json:"pre"`     // "" or the name of a writer whose value is stored before the race starts
+	PreSame bool              `json:"presame"` // the pre-stored value is written through the first active writer's own connection
 }
 
 type ccEvent struct {
@@ -170,7 +171,7 @@ func ChunkConc(a Args) {
 		for {
 			st.Clear()
 			gated = false
-			if p.Pre != "" {
+			if p.Pre != "" && !p.PreSame {
 				c, err := net.Dial("unix", sock)
 				must(err)
 				h := chunked.NewHandler(c)
@@ -197,6 +198,11 @@ func ChunkConc(a Args) {
 				cls = append(cls, cl{name: name, h: chunked.NewHandler(c), conn: id})
 				grants[id] = make(chan struct{})
 				connClient[id] = name
+			}
+			if p.Pre != "" && p.PreSame {
+				// two writes of one key through ONE connection: whatever a handler keeps per connection
+				// (its token source, say) is shared by the stored value and the racing write
+				must(cls[0].h.Set(common.SetRequest{Key: append([]byte(nil), key...), Data: value(p.Pre, p.N[p.Pre]), Flags: flagsOf(p.Pre)}))
 			}
 			gated = true
 			var lines []map[string]interface{}
